@@ -157,6 +157,14 @@ static Plan gen_just(u64 seed) {
     Op o; o.kind = "make_seg"; o.a = {0, r.chance(1, 2) ? 0 : -1, i64(1 << r.below(3)), i64(r.below(8)), 0, -1};
     o.text = synth ? synth_text(r, 30) : gen_text(r, font, g_tier ? 120 : 40, r.chance(1, 4));
     if (o.text.size() > 3 && r.chance(1, 2)) for (size_t k = 3 + r.below(5); k < o.text.size(); k += 3 + r.below(7)) o.text[k] = ' ';
+    if (!synth && !o.text.empty()) {
+        // rotten-but-accepted fonts under line breaking and justification: a character of this very text (often its last one) mapped
+        // to a glyph id at or just behind the end of the font, or one instruction of the rule code changed
+        const FontImage *fi = g_corpus.find(font); Fault f;
+        if (fi && r.chance(1, 8)) { std::vector<u32> cand; for (int q = 0; q < 3; ++q) { u32 c = q == 0 ? o.text.back() : o.text[r.below(u32(o.text.size()))]; if (c != ' ' && c < 0x10000) cand.push_back(c); } if (!cand.empty()) f = gen_gid_fault(r, *fi, cand); }
+        else if (fi && r.chance(1, 10)) f = gen_code_fault(r, *fi);
+        if (!f.kind.empty() && !f.a.empty()) { f.nth = -1; p.ops[0].faults.push_back(f); }
+    }
     p.ops.push_back(o);
     gen_just_ops(r, p.ops, 1 + r.below(g_tier ? 12 : 8), 0);
     p.ops.push_back(mk("destroy_seg", {0}));
@@ -178,7 +186,7 @@ static void gen_history(Rng &r, const std::string &font, std::vector<Op> &ops, u
         else if (k < 67) ops.push_back(mk("fval_get", {i64(r.below(6)), i64(r.below(64))}));
         else if (k < 70) ops.push_back(mk("fval_destroy", {i64(r.below(6))}));
         else if (k < 78) ops.push_back(mk("label", {face, i64(r.below(64)), i64(r.below(4)) - 1, i64(1 << r.below(3)), r.chance(1, 2) ? 0x0409 : i64(r.below(0x10000))}));
-        else if (k < 86) { Op o = mk("face_query", {face, i64(r.below(9)), i64(r.chance(1, 2) ? r.below(40) : u32(r.next()))}); if (o.a[1] == 7) o.text = sample_cps(r, font, 8); ops.push_back(o); }
+        else if (k < 86) { Op o = mk("face_query", {face, i64(r.below(10)), i64(r.chance(1, 2) ? r.below(40) : u32(r.next()))}); if (o.a[1] == 9) o.a[1] = 10; if (o.a[1] == 7) o.text = sample_cps(r, font, 8); ops.push_back(o); }
         else if (k < 90) ops.push_back(mk("make_font", {face, i64(16 * (1 + r.below(300))), r.chance(1, 3) ? 1 : 0}));
         else if (k < 92) ops.push_back(mk("destroy_font", {i64(r.below(4))}));
         else if (allow_just) gen_just_ops(r, ops, 1 + r.below(3), i64(r.below(6)));
